@@ -57,3 +57,59 @@ Example C09_plain_nonvacuous :
 Proof.
   simpl. repeat (first [reflexivity | exact I | split | constructor]; simpl).
 Qed.
+
+(** * Tie B: shape preservation read off the dispatch regenerated from the current
+    pypyr/formatting.py (Gen/GenC08.v, by tools/py2coq_c08.py before every build). *)
+From PV Require Import FormatSrc GenC08 GenC08Proofs.
+
+Theorem C09_source_dispatch_is_model : forall ctx f v r,
+  fmt_iter ctx (S f) v r
+  = gen_get_formatted_iterable gen_context_passthrough_types gen_context_special_types
+      parse (src_get_field ctx) (src_vformat ctx) convert_field format_field
+      (src_special_value ctx (fmt_iter ctx f)) (fmt_iter ctx f) v r.
+Proof. exact fmt_iter_unfolds_to_source. Qed.
+Print Assumptions C09_source_dispatch_is_model.
+
+Theorem C09_source_leaf_is_model : forall ctx rec v r,
+  is_leaf v = true ->
+  gen_get_formatted_iterable gen_context_passthrough_types gen_context_special_types
+    parse (src_get_field ctx) (src_vformat ctx) convert_field format_field
+    (src_special_value ctx rec) rec v r = Ok v.
+Proof. exact gen_iter_leaf. Qed.
+Print Assumptions C09_source_leaf_is_model.
+
+Theorem C09_source_list_is_model : forall ctx rec l r,
+  gen_get_formatted_iterable gen_context_passthrough_types gen_context_special_types
+    parse (src_get_field ctx) (src_vformat ctx) convert_field format_field
+    (src_special_value ctx rec) rec (VList l) r
+  = (let* l' := mapM (fun x => rec x r) l in Ok (VList l')).
+Proof. exact gen_iter_list. Qed.
+Print Assumptions C09_source_list_is_model.
+
+Theorem C09_source_tuple_is_model : forall ctx rec l r,
+  gen_get_formatted_iterable gen_context_passthrough_types gen_context_special_types
+    parse (src_get_field ctx) (src_vformat ctx) convert_field format_field
+    (src_special_value ctx rec) rec (VTuple l) r
+  = (let* l' := mapM (fun x => rec x r) l in Ok (VTuple l')).
+Proof. exact gen_iter_tuple. Qed.
+Print Assumptions C09_source_tuple_is_model.
+
+Theorem C09_source_set_is_model : forall ctx rec l r,
+  gen_get_formatted_iterable gen_context_passthrough_types gen_context_special_types
+    parse (src_get_field ctx) (src_vformat ctx) convert_field format_field
+    (src_special_value ctx rec) rec (VSet l) r
+  = (let* l' := mapM (fun x => rec x r) l in
+     let* s := res_of_opt (set_of_list l') in Ok (VSet s)).
+Proof. exact gen_iter_set. Qed.
+Print Assumptions C09_source_set_is_model.
+
+(** mappings: keys AND values, pairwise, in order, same class *)
+Theorem C09_source_dict_is_model : forall ctx rec l r,
+  gen_get_formatted_iterable gen_context_passthrough_types gen_context_special_types
+    parse (src_get_field ctx) (src_vformat ctx) convert_field format_field
+    (src_special_value ctx rec) rec (VDict l) r
+  = (let* l' := mapM (fun kv => let* k := rec (fst kv) r in
+                                let* x := rec (snd kv) r in Ok (k, x)) l in
+     Ok (VDict (rebuild_dict l'))).
+Proof. exact gen_iter_dict. Qed.
+Print Assumptions C09_source_dict_is_model.
